@@ -51,6 +51,13 @@ CLAIMED = {
    design="DESIGN.md §3 C04",
    note=BASE_NOTE + "the file-routing half (in place: no write; other destination: copy of the input) is part of the I/O model of C12.",
    technique="Coq proof (case analysis on the final decision; strong induction on length for the fixed point) + model replay"),
+ "C05": dict(
+   text="Machine-checked (Properties/C05.v), with every Rust panic point an explicit Panic value of the model: the chunk walker terminates within its fuel and never panics for any byte string and policy; header parsing never panics and yields only legal colour-type/bit-depth pairs; "
+        "an image is decoded only if its size is below 1032 x (compressed bytes + 1) with non-zero dimensions, and the unfiltered data is no longer than that. "
+        "Runtime: isolated worker processes (catch_unwind, counting global allocator: largest single request and peak, RLIMIT_AS, watchdog) over every truncation, single-byte corruptions, chunk- and field-level edits of a structured corpus, hand-built absurd headers and raw tuples; debug and (thorough) release profile; outcome classes replayed on the model.",
+   design="DESIGN.md §3 C05",
+   note=BASE_NOTE + "PARTIAL: absence of Panic inside the reductions/filters for every accepted image and the peak of simultaneously live buffers are measured, not proved; memory safety of unsafe code and FFI is exercised only. Four genuine defects were repaired (fix commits 57dbdb7, e8d3884, 4d8f6d0, 0164411).",
+   technique="Coq proof (fuel/termination argument, case analysis) + fault-injection style mutation corpus in isolated workers"),
  "C06": dict(
    text="Machine-checked (Properties/C06.v): the concurrent trials are a labelled transition system with an arbitrary schedule; every complete schedule, and the synchronous fold of the non-parallel build, "
         "return best_of = the key-minimal eligible trial; the pipeline model only consults best_of and has no schedule parameter. Tied to the code by forcing schedules in the real rayon pool "
@@ -80,6 +87,12 @@ CLAIMED = {
    design="DESIGN.md §3 C10",
    note=BASE_NOTE + "frame pixel equality is decided per run by the oracle (same partial status as C01). F6 was repaired (fix 0e2fef8).",
    technique="Coq proof (induction over the frame list; byte-level round trip of fcTL) + model replay + per-frame spec decode"),
+ "C11": dict(
+   text="Machine-checked (Properties/C11.v): the constructor never panics and accepts exactly the consistent tuples (iff); the created file is `output` of a pipeline candidate with the given dimensions, so the container/structure theorems of C02 and the policy theorems of C07/C14 apply to it. "
+        "Generated consistent and inconsistent tuples with attached chunks / ICC profiles x options: model replay of the whole API, strict validation, and decode by the extracted specification against the raw samples.",
+   design="DESIGN.md §3 C11",
+   note=BASE_NOTE + "pixel fidelity inherits C01's partial status (decided per run by the oracle). Indices outside a supplied palette are accepted by the API (not part of the property's rejection list). F7 repaired (fix 13eac94).",
+   technique="Coq proof (iff characterisation of acceptance; provenance) + model replay + spec oracle"),
  "C13": dict(
    text="Machine-checked (Properties/C13.v): the clock is an oracle of the model, so the pipeline theorems hold for every pattern of answers; never-larger under any landing point; the evaluator returns the minimal completed trial "
         "whichever trials were skipped. Tied to the code through the deadline hook: for EVERY k in 0..K (K = consultations of the untimed run) the run with expiry at the k-th check is replayed on the model under the recorded clock, "
